@@ -301,8 +301,8 @@ func runC05(c *Ctx) {
 		"(locked) every such write happens with the session mutex held for writing; (pairing) on creation the host stored under Table[addr.IP] is the one whose MACEntry is findOrCreate(addr.MAC), whose Addr.MAC is that entry's MAC and which is appended to that entry's HostList; " +
 		"deleteHost unlinks the host, removes Table[ip] and deletes the MAC entry only when its list is empty; findOrCreate appends an entry only after findMAC returned nil; (online) a host goes online together with its MAC entry and makeOffline recomputes the entry's flag from the list. " +
 		"Not decided: that the mutators jointly preserve the invariant over all histories (an inductive argument), quiescent-point claims."
-	r.Rule("who-writes", "table and link fields are written only by the table mutators", 9)
-	r.Rule("locked", "table mutations hold the session mutex for writing", 8)
+	r.Rule("who-writes", "table and link fields are written only by the table mutators", 8)
+	r.Rule("locked", "table mutations hold the session mutex for writing", 7)
 	r.Rule("pairing", "creation and deletion keep index, link and list together", 16)
 	r.Rule("online", "MAC entry online flag follows its hosts", 2)
 	runC05Holders(c)
